@@ -279,6 +279,58 @@ let field s pre =
   let lp = String.length pre in
   if String.length s >= lp && String.sub s 0 lp = pre then String.sub s lp (String.length s - lp) else "-"
 
+
+(* IN HUSE id workers= tb= who= when= ops=<member>,...   (harness/c13_huse.cpp)
+   -> OUT HUSE id calls_returned= target_interrupted= join_returned= joinable_after=  [MODEL-MONITOR-FAILED ...]
+   The layered model (Model/JoinLock.v) with the locking shape read from the source (join_unlocks_before_wait):
+   task 0 = the joiner (handle (0,0) -> task 1), task 1 = the target, blocked in an interruptible wait (modelled as a
+   join on something that never terminates, whatever the facility), thread 2 = the third party. *)
+let huse_line id fields =
+  let get k = List.fold_left (fun acc f -> let v = field f (k ^ "=") in if v <> "-" then v else acc) "-" fields in
+  let ops = split_on ',' (get "ops") and whenv = get "when" in
+  let unl = join_unlocks_before_wait in
+  let tgt t _ = if t = n0 then n1 else nat_of_int 7 in
+  let detached = ref false in
+  let hops = List.concat_map (fun o ->
+      match o with
+      | "swap" | "move" -> [HObs (n0, n0); HObs (n0, n0)]
+      | "detach" -> detached := true; [HDetach (n0, n0)]
+      | "interrupt" -> if !detached then [HIntrId n1] else [HIntr (n0, n0)]
+      | _ -> [HObs (n0, n0)]) ops in
+  let n3 = nat_of_int 3 in
+  let c0 = (lg_init (fun _ _ -> true), ll_init n2 (fun _ -> [AJoin n0]) (fun t -> if t = n2 then hops else [])) in
+  let fuel = nat_of_int 1000 in
+  let c = lrun_task unl tgt fuel n1 c0 in
+  let c =
+    if whenv = "suspended" then lrun_task unl tgt fuel n0 c
+    else begin
+      (* hook 1302: callback accepted, the wait loop not yet entered *)
+      let rec adv c k =
+        if k = 0 then c else
+        match ((snd c n0).bl).pc with
+        | PJoinSusp (_, _) | PJoinWake (_, _) -> c
+        | PJoinChk (_, _, _) when not unl || (fst c).hlk n0 n0 = None -> c
+        | _ -> adv (step (ltstep unl tgt) c (n0, ())) (k - 1) in
+      adv c 20
+    end in
+  let c = lrun_task unl tgt fuel n2 c in
+  let c = lround_robin unl tgt (nat_of_int 12) n3 c in
+  let g = (fst c).bg in
+  let calls = calls_returned (snd c n2) in
+  let tint = List.exists (function EIntrAt (t, _, _) when t = n1 -> true | _ -> false) g.log in
+  let jret = List.exists (function EJoinRet (t, k) when t = n0 && k = n0 -> true | _ -> false) g.log in
+  let b x = if x then 1 else 0 in
+  Printf.printf "OUT HUSE %s calls_returned=%d target_interrupted=%d join_returned=%d joinable_after=%s%s\n" id (b calls) (b tint) (b jret)
+    (if jret then string_of_int (b (g.hid n0 n0)) else "-")
+    (match first_waiter unl tgt n3 c with
+     | Some (t, (o, k)) ->
+       Printf.sprintf " MODEL-MONITOR-FAILED stuck: thread %d waits for the lock of handle (%d,%d) owned by %s; join_unlocks_before_wait=%b"
+         (int_of_nat t) (int_of_nat o) (int_of_nat k)
+         (match (fst c).hlk o k with
+          | Some h -> Printf.sprintf "task %d (suspended=%b)" (int_of_nat h) ((g.ag h).blocked)
+          | None -> "nobody") unl
+     | None -> "")
+
 let () =
   try
     while true do
@@ -302,6 +354,7 @@ let () =
         let ok = join_ok_b tgt (fst c) in
         Printf.printf "OUT SEQ %s main=%s self=%s%s\n" id (results (fst c) n0)
           (if self then results (fst c) st else "-") (if ok then "" else " MODEL-MONITOR-FAILED")
+      | "IN" :: "HUSE" :: id :: fields -> huse_line id fields
       | ["IN"; "REJOIN"; id; _var; e] -> rejoin_line id (field e "E=")
       | ["IN"; "RACE"; id; j; t] ->
         let js = split_on ',' (field j "J=") and ts = split_on ',' (field t "T=") in
